@@ -9,6 +9,11 @@ def cmd(pid, tier):
 
 # id -> (category, engine, technique, level text, level note, design ref)
 CHECKS = {
+ "C09": ("model_checking", "SCHED+ENUM",
+   "stateless DFS over all release orders of the real client's tasks under a controlled scheduler (hook points in harness transports, front-end actors, environment events and the library's send/read/shutdown tasks), with fault enumeration at every step",
+   "For every client history (1-3 front-end operations; thorough up to 4) x every fault kind (n-th send fails, receive error, peer close, non-JSON message, unknown-id response, empty array, non-numeric id, empty object) x every injection position x both id kinds, the complete schedule tree is explored when it has <= 3k (thorough 200k) executions, else all schedules with <= 2 (thorough 3) deviations; on every execution: nothing pending at quiescence, every failed op carries the injected cause (never the 'reason could not be found' placeholder), streams ended, is_connected false, on_disconnect resolved with the cause, no panic. Every N-th and every violating schedule is re-executed and must reproduce bit for bit. Plus ~100 hostile server messages (u64-boundary ids, 10^4-element array, depth-200 nesting) x {0,1} pending calls followed by a sentinel call, and one real-time leg for RequestTimeout.",
+   "Interleaving granularity = the points (harness events, mock transport operations, cfg points in the three client tasks); preemption between two statements without a point and weak-memory effects are not explored. Virtual time: 'promptly' means 'before quiescence'.",
+   "DESIGN.md §6 C09"),
  "C08": ("exploration", "ENUM",
    "bounded-exhaustive enumeration of (limit, response shape, payload size) and batch layouts; differential against a server with the limit disabled; every wire frame measured",
    "For every limit 40..260 (thorough ..330) and {1024, 65536} and each of 30 response shapes, every payload size whose unlimited reply length is within limit+-3 is requested over HTTP and WS: a fitting reply must be byte-identical to the unlimited server's, a too-big one must be -32008 with the call's id; batches of 1..4 entries with total array length limit-2..limit+2 and the adjustable entry at every position (array byte-identical or -32011); WS subscribe responses with subscription ids of controlled width; full 1-step sweep of MethodResponse::response / BatchResponseBuilder; handler log identical with and without limit.",
